@@ -130,7 +130,8 @@ func (s *SessionVariables) SetEqualsWith(dst *SessionVariables) ( /*changed*/ bo
 	}
 
 	// 用于记录是否有变量更新
-	changed := false
+	// variables left in unused by a refused SET statement still have to be reset on the backend
+	changed := len(s.unused) != 0
 
 	for name, dstVar := range dst.variables {
 		if srcVar, ok := s.variables[name]; ok {
@@ -205,6 +206,19 @@ func (s *SessionVariables) GetUnusedAndClear() map[string]*Variable {
 	unused := s.unused
 	s.unused = make(map[string]*Variable)
 	return unused
+}
+
+// Invalidate is called when the SET statement built from s was refused by the backend: nothing of it
+// was applied there, so every variable s believed to be set (or to be reset, passed in unused) is
+// remembered as unused and is written again, or reset to its default, by the next SET statement.
+func (s *SessionVariables) Invalidate(unused map[string]*Variable) {
+	for name, v := range unused {
+		s.unused[name] = v
+	}
+	for name, v := range s.variables {
+		s.unused[name] = v
+		delete(s.variables, name)
+	}
 }
 
 // Reset removes any session variables that are not recognized according to the current verification rules.
